@@ -51,8 +51,9 @@ class Recorder:
         info = info or {"funcs": {}}
         root = os.path.realpath(os.path.join(tree, "Pyro5"))
         for cname, f in info["funcs"].items():
+            recv = [a["line"] for a in f["anchors"] if a["kind"] == "KRecvStub"]
             self.by_key[(os.path.join(root, f["file"]), f["name"], f["firstlineno"])] = (
-                cname, {int(k): v for k, v in f["lines"].items()})
+                cname, {int(k): v for k, v in f["lines"].items()}, recv[0] if recv else None)
 
     def reset(self):
         with self.lock:
@@ -95,7 +96,9 @@ class Recorder:
             if st is None:
                 return False
             hit = None
-            for classes, act in st["handlers"]:
+            for classes, act, g in st["handlers"]:
+                if g != "GAlways":
+                    continue
                 if any(c in mro for c in classes):
                     hit = act
                     break
@@ -131,8 +134,9 @@ class Recorder:
                         fresh = id(exc) not in self.seen
                         self.seen.add(id(exc))
             if fresh:
-                cname, lines = self.codes[frame.f_code]
-                self.add("fault", threading.get_ident(), cname, lines.get(frame.f_lineno), mro_of(exc), frame.f_lineno)
+                cname, lines, recvline = self.codes[frame.f_code]
+                self.add("fault", threading.get_ident(), cname, lines.get(frame.f_lineno), mro_of(exc), frame.f_lineno,
+                         frame.f_lineno == recvline)
         return self.local_trace
 
 
@@ -619,7 +623,7 @@ class Player:
                     return True
             else:
                 n = 0
-            if time.time() - t0 > timeout:
+            if time.time() - t0 > timeout or not self.srv.loop_alive():
                 return False
             time.sleep(0.001)
 
@@ -677,6 +681,8 @@ class Player:
                 viol.append(("witness-wrong-reply", "witness ping seq %d answered %r" % (wseq[0], {k: r.get(k) for k in ("type", "flags", "seq")})))
         for st in sc["steps"]:
             op = st[0]
+            if not srv.loop_alive():
+                break
             if op == "wcall":
                 wcall(st[1])
             elif op == "wping":
@@ -722,7 +728,12 @@ class Player:
         alive = srv.loop_alive()
         a = self.acct()
         if not alive:
+            # everything else (unanswered new clients, accounting) follows from this
             viol.append(("request-loop-died:" + self.cfg["server"], "the daemon's request loop ended with %r" % (srv.loop_exception,)))
+            with contextlib.suppress(Exception):
+                w.close()
+            self.stop()
+            return {"violations": viol, "case": None, "dist": dist}
         if a != 1:
             viol.append(("accounting-not-restored:" + self.cfg["server"],
                          "after the attacking connections ended %s is %d, with only the witness connected (pre-attack value 1)" % (
@@ -782,7 +793,7 @@ class Player:
                 if e[2] not in MODELLED or ep is None:
                     anomalies.append("fresh exception %s surfacing in %s line %d outside the modelled points" % (e[4][0], e[2], e[5]))
                     continue
-                ep["faults"].append((e[2], e[3], e[4]))
+                ep["faults"].append((e[2], e[3], e[4], bool(e[6])))
                 ep["act"] = i if ep["act"] is None else ep["act"]
             elif k == "sent":
                 for ep in reversed(eps):
